@@ -78,19 +78,30 @@ func (g *StreamGen) scalarPayload(b []byte, k vschema.Kind) []byte {
 	case vschema.Int32, vschema.Enum:
 		n = uint64(int64(int32(uint32(n))))
 		if g.R.Chance(5) { // int32 sent as a truncated-to-be 64-bit varint with junk high bits
-			n = v.N | uint64(g.R.Intn(7))<<40
+			n = uint64(uint32(v.N)) | uint64(1+g.R.Intn(0xFFFF))<<(32+uint(g.R.Intn(16)))
 			g.feat("wide-varint-for-32bit")
 		}
 	case vschema.Sint32:
 		n = protowire.EncodeZigZag(int64(int32(uint32(n)))) & 0xFFFFFFFF
+		if g.R.Chance(8) { // junk above bit 31: decoders keep the low 32 bits, then zig-zag decode
+			n |= uint64(1+g.R.Intn(0xFFFF)) << (32 + uint(g.R.Intn(16)))
+			g.feat("wide-varint-for-32bit")
+		}
 	case vschema.Sint64:
 		n = protowire.EncodeZigZag(int64(n))
 	case vschema.Bool:
 		if g.R.Chance(10) {
 			n = 2 + uint64(g.R.Intn(300)) // any non-zero varint is true
+			if g.R.Chance(30) {
+				n = uint64(1+g.R.Intn(255)) << (8 * uint(1+g.R.Intn(7))) // low byte / low 32 bits all zero
+			}
 		}
 	case vschema.Uint32:
 		n &= 0xFFFFFFFF
+		if g.R.Chance(8) {
+			n |= uint64(1+g.R.Intn(0xFFFF)) << (32 + uint(g.R.Intn(16)))
+			g.feat("wide-varint-for-32bit")
+		}
 	}
 	return g.appendVarint(b, n)
 }
